@@ -164,6 +164,8 @@ impl RollState {
     }
 
     fn age_rotation_necessary(age: Age, created_at: &DateTime<Local>) -> bool {
+        #[cfg(flexi_logger_verif)]
+        use crate::verif_hooks::Local;
         let now = Local::now();
         match age {
             Age::Day => {
@@ -457,6 +459,8 @@ impl State {
         &mut self,
         force: bool,
     ) -> Result<(), FlexiLoggerError> {
+        #[cfg(flexi_logger_verif)]
+        use crate::verif_hooks::Local;
         if let Inner::Active(
             Some(ref mut rotation_state),
             ref mut current_write,
@@ -673,6 +677,10 @@ fn open_log_file(
 }
 
 fn get_creation_timestamp(path: &Path) -> DateTime<Local> {
+    #[cfg(flexi_logger_verif)]
+    if let Some(ts) = crate::verif_hooks::creation_time(path) {
+        return ts;
+    }
     // On windows, we know that try_get_creation_date() returns a result, but it is wrong.
     if cfg!(target_os = "windows") {
         get_current_timestamp()
@@ -693,6 +701,8 @@ fn try_get_modification_timestamp(path: &Path) -> Result<DateTime<Local>, FlexiL
     Ok(d.into())
 }
 fn get_current_timestamp() -> DateTime<Local> {
+    #[cfg(flexi_logger_verif)]
+    use crate::verif_hooks::Local;
     Local::now()
 }
 
